@@ -248,11 +248,28 @@ struct Outcome {
   std::string inconclusive;
 };
 
-void waitAllRan(PCtx& c) {
-  // every continuation must run: bounded by the watchdog (flat progress + idle => hang verdict)
+// Waits until every continuation has run. Returns false if the system is quiescent and one never
+// will: every registrar and the root's runner have returned, no NewThreadInvoker thread is alive, the
+// pool has neither queued nor executing work, and that stayed so (with no continuation starting) over
+// several consecutive passes. A continuation that is still going to run is either queued / running on
+// the pool, running on a NewThreadInvoker thread, or linked into the chain of an antecedent for which
+// the same holds, so quiescence with a missing run means its link was dropped.
+bool waitAllRan(PCtx& c, Env& e) {
   int want = static_cast<int>(c.s.nodes.size());
-  while (c.totalRuns.load(std::memory_order_relaxed) < want) {
-    usleep(50);
+  int stable = 0;
+  for (;;) {
+    int t0 = c.totalRuns.load(std::memory_order_relaxed);
+    if (t0 >= want) return true;
+    usleep(100);
+    dispenso::detail::drainNewThreadInvokerThreads();
+    long w = e.pool ? static_cast<long>(e.pool->verifWorkRemaining()) : 0;
+    int t1 = c.totalRuns.load(std::memory_order_relaxed);
+    if (t1 >= want) return true;
+    if (w == 0 && t1 == t0) {
+      if (++stable >= 6) return false;
+    } else {
+      stable = 0;
+    }
   }
 }
 
@@ -374,8 +391,8 @@ Outcome runProgram(const Spec& s, long idx) {
           const NodeSpec& n = s.nodes[static_cast<size_t>(i)];
           bool chainImmediate = n.sched == kSImmediate && (n.parent < 0 || s.nodes[static_cast<size_t>(n.parent)].sched == kSImmediate);
           if (chainImmediate && c.obs[i].runs.load() == 0 && !n.earlyGet) {
-            lostDirect = true;
             vrt::violation("continuation lost: antecedent is ready, then() returned, the ImmediateInvoker continuation never ran", J().kv("node", i).kv("spec", s.json()), "lost");
+            _exit(5); // its future can never complete; tearing the case down would hang
           }
         }
       }
@@ -384,7 +401,14 @@ Outcome runProgram(const Spec& s, long idx) {
         e.manual.runPending();
       }
       e.gate.release();
-      if (!lostDirect) waitAllRan(c);
+      if (!waitAllRan(c, e)) {
+        std::vector<int> missing;
+        for (int i = 0; i < N; ++i) {
+          if (c.obs[i].runs.load() == 0) missing.push_back(i);
+        }
+        vrt::violation("continuation lost: every thread has returned, the pool is idle and no NewThreadInvoker thread is alive, but a continuation never ran", J().arr("nodes", missing).kv("spec", s.json()), "lost");
+        _exit(5); // the lost continuation's future (and any task set it is registered with) can never complete
+      }
       {
         RoleScope role(kRoleDrain);
         if (e.ts) {
@@ -500,7 +524,7 @@ Spec gen(vrt::Rng& r, long k) {
   s.rootThrows = r.chance(0.12);
   s.pool = static_cast<int>(r.range(1, 4));
   if (r.chance(0.06)) s.pool = 0;
-  static const int dw[] = {0, 0, 10, 100, 400};
+  static const int dw[] = {0, 10, 100, 400, 800};
   s.rootDwellUs = dw[r.below(5)];
   auto pickSched = [&r]() {
     static const int sc[] = {kSImmediate, kSImmediate, kSPool, kSPool, kSTaskSet, kSCTaskSet, kSNewThread};
